@@ -19,8 +19,8 @@ ASSUMPTIONS = [
     'transitions are observed through ENTERED_STATE callbacks while the process is open and through state sampling after every loop callback afterwards',
 ]
 BUDGET = {
-    'quick': {'enum': ['k1', 'k2', 'hooks', 'wc', 'tasks', 'observers'], 'hyp': 4000, 'shards': 8},
-    'thorough': {'enum': ['k1', 'k2', 'k3', 'k4w', 'hooks', 'wc', 'tasks', 'observers'], 'hyp': 160000, 'shards': 16},
+    'quick': {'enum': ['k1', 'k2', 'hooks', 'wc', 'tasks', 'observers', 'closed'], 'hyp': 4000, 'shards': 8},
+    'thorough': {'enum': ['k1', 'k2', 'k3', 'k4w', 'hooks', 'wc', 'tasks', 'observers', 'closed'], 'hyp': 160000, 'shards': 16},
 }
 
 ALPHABET = [['pause', 'p'], ['play'], ['kill', 'kt'], ['resume', 1], ['fail', 'f']]
@@ -53,6 +53,15 @@ def enumerate_cases(tier, scope):
                         continue
                     for raising in (None, 1):
                         yield {'program': gen.CATALOGUE[name], 'schedule': sched, 'cleanup_raises': raising, 'tag': f'tasks:{name}'}
+        return
+    if scope == 'closed':
+        # close() on a live process (it drops the hooks and callbacks): control calls afterwards still move the bare state
+        # machine, and only along the graph
+        for name in ('async2', 'wait1', 'chain', 'gated', 'waitwait'):
+            for gap in (0, 1, 2, 3):
+                for k in (1, 2):
+                    for sched in gen.schedules(ALPHABET, k, 1):
+                        yield {'program': gen.CATALOGUE[name], 'schedule': [['tick', gap], ['close']] + sched, 'tag': f'closed:{name}'}
         return
     if scope == 'observers':
         # one-shot observers: a state-event callback that unregisters itself while it is being called
@@ -97,7 +106,7 @@ def enumerate_cases(tier, scope):
 @st.composite
 def _cases(draw, tier):
     prog = draw(gen.programs(max_steps=4 if tier == 'quick' else 6, self_calls=(), soon=True))
-    sched = draw(gen.control_schedules(['pause', 'play', 'kill', 'resume', 'fail', 'open', 'cancel_task', 'restep'], max_events=5, max_gap=4))
+    sched = draw(gen.control_schedules(['pause', 'play', 'kill', 'resume', 'fail', 'open', 'cancel_task', 'restep', 'close'], max_events=5, max_gap=4))
     case = {'program': prog, 'schedule': sched}
     if draw(st.integers(0, 2)) == 0:
         case['hooks'] = draw(gen.hook_plans(['kill', 'pause', 'play', 'fail']))
@@ -212,6 +221,8 @@ def execute(case):
         inflight = [r for r in recs if (r['who'] == 'ext' and r.get('phase') in ('in_step', 'waiting')) or r['who'].startswith('hook:')]
         if any(r['who'].startswith('hook:') for r in recs):
             classes.append('request-from-hook')
+        if ex.close_live_at is not None:
+            classes.append('closed-while-live')
         if ex.world.extra.get('oneshot_removed'):
             classes.append('observer-removed-itself')
         post = [r for r in recs if not r['live_before']]
